@@ -543,10 +543,10 @@ func c05MatchedForm(db *formsDB, opcode string, sfx []string, ops []operand.Op) 
 	return nil
 }
 
-// c05Build instantiates row with generated operands through the real constructor path.
-func (g *c05Gen) build(db *formsDB, row *formRow, stream string) *c05Case {
-	types := row.explicitTypes()
-	var ops []operand.Op
+// sample generates a well-typed operand list for the explicit operand types of row (registers, memory shapes and
+// constants boundary-biased; gather/scatter operands distinct; the write mask K0 only in stream k0mask).
+func (g *c05Gen) sample(row *formRow, stream string) (types []string, ops []operand.Op, maskPos int) {
+	types = row.explicitTypes()
 	g.vecMax = 32
 	if !c05HasEVEX(row) && stream != "hivec" {
 		g.vecMax = 16
@@ -564,7 +564,7 @@ func (g *c05Gen) build(db *formsDB, row *formRow, stream string) *c05Case {
 		}
 	}
 	// the opmask in write-mask position (second to last operand of an AVX-512 vector instruction) cannot be K0
-	maskPos := -1
+	maskPos = -1
 	if n := len(types); n >= 3 && types[n-2] == "k" && strings.HasPrefix(row.Opcode, "V") {
 		maskPos = n - 2
 	}
@@ -584,6 +584,103 @@ func (g *c05Gen) build(db *formsDB, row *formRow, stream string) *c05Case {
 			break
 		}
 	}
+	return types, ops, maskPos
+}
+
+// regSrc: the registers derived operands are made of — physical registers of the generator's pools (vector registers
+// within the range the form can encode).
+func (g *c05Gen) regSrc() *c05RegSrc {
+	return &c05RegSrc{
+		gp: func(size uint) reg.Register {
+			for {
+				if x := g.gpReg(size); !c05IsHigh(x) {
+					return x
+				}
+			}
+		},
+		gp8h: func() reg.Register { return pick(g.r, []reg.Register{reg.AH, reg.CH, reg.DH, reg.BH}) },
+		vec:  g.vecReg,
+		k:    func() reg.Register { return pick(g.r, g.k) },
+	}
+}
+
+// c05ClassLine is one `opclass` request: the real predicate of operand type t on op.
+type c05ClassLine struct{ req, resp string }
+
+// derived instantiates row, brings the operand at a position of type t to a member with every attribute present and
+// applies every one-attribute change of the catalogue of t (c05derive.go).  Every member and every changed operand
+// is put to the real class predicate (`opclass`, judged exactly by the Lean model); the changed operand lists routed
+// "asm" go through the constructor and, when accepted, through the assembler oracle like any other instruction.
+func (g *c05Gen) derived(db *formsDB, row *formRow, t string, typeCode map[string]uint8) (cases []*c05Case, lines []c05ClassLine) {
+	types, ops, _ := g.sample(row, "form")
+	var at []int
+	for i, ty := range types {
+		if ty == t {
+			at = append(at, i)
+		}
+	}
+	if len(at) == 0 {
+		return nil, nil
+	}
+	pos := pick(g.r, at)
+	gather := false
+	for _, ty := range types {
+		if strings.HasPrefix(ty, "vm") {
+			gather = true
+		}
+	}
+	good, muts := c05Derive(t, ops[pos], g.regSrc())
+	ops[pos] = good
+	classLine := func(op operand.Op) string {
+		res := "0"
+		_, panicked := safely(func() error {
+			if x86.VerifMatch(typeCode[t], op) {
+				res = "1"
+			}
+			return nil
+		})
+		if panicked {
+			res = "panic"
+		}
+		lines = append(lines, c05ClassLine{"opclass " + t + " " + c05EncOp(op), res})
+		return res
+	}
+	if classLine(good) == "1" {
+		g.stats["opclass_member"]++
+	}
+	var sfx []string
+	if len(row.Suffixes) > 0 {
+		sfx = pick(g.r, row.Suffixes)
+	}
+	fam := c05Family(t)
+	for _, m := range muts {
+		g.stats["derived:"+fam+":"+m.what]++
+		g.stats["derivedpair:"+t+":"+m.what]++
+		if classLine(m.op) == "1" {
+			g.stats["opclass_in"]++
+		} else {
+			g.stats["opclass_out"]++
+		}
+		if c05DeriveRoute(t, m.what) != "asm" {
+			continue
+		}
+		mut := append([]operand.Op(nil), ops...)
+		mut[pos] = m.op
+		if gather && !c05DistinctVec(mut) {
+			g.stats["derived_skipped_vecdup"]++
+			continue
+		}
+		g.stats["derivedasm:"+t+":"+m.what]++
+		if c := g.buildOps(db, row, "nearmiss:"+m.what, sfx, mut); c != nil {
+			cases = append(cases, c)
+		}
+	}
+	return cases, lines
+}
+
+// c05Build instantiates row with generated operands through the real constructor path.
+func (g *c05Gen) build(db *formsDB, row *formRow, stream string) *c05Case {
+	types, ops, maskPos := g.sample(row, stream)
 	switch stream {
 	case "k0mask":
 		if maskPos < 0 {
